@@ -412,6 +412,34 @@ func rotation(rep *kit.Report, root string) {
 	}
 }
 
+// caseSensitive: in case-sensitive path mode (CASE_SENSITIVE_PATH=1) a scope or an exception written /status does not
+// cover /Status: such a request is logged exactly once, and the excepted spelling is not.
+func caseSensitive(rep *kit.Report, root string) {
+	httpserver.CaseSensitivePath = true
+	defer func() { httpserver.CaseSensitivePath = false }()
+	dir := filepath.Join(root, "cs")
+	os.MkdirAll(dir, 0o755)
+	lf := filepath.Join(dir, "cs.log")
+	cf := fmt.Sprintf("a.test:8080 {\n\tlog / %s \"{uri}\" {\n\t\texcept /status\n\t}\n\tstatus 204 /\n}\n", lf)
+	l, err := kit.Load(cf, filepath.Join(dir, "Casketfile"))
+	if err != nil {
+		rep.Broken("case-sensitive: load: %v", err)
+	}
+	defer l.Close()
+	for _, tc := range []struct {
+		path string
+		want int
+	}{{"/Status", 1}, {"/status", 0}, {"/status/live", 0}, {"/STATUS/x", 1}, {"/other", 1}} {
+		kit.Serve(l.Server(""), kit.Get("GET", tc.path+"?t="+tc.path[1:2], "a.test:8080"))
+		rep.Eval(1)
+		b, _ := os.ReadFile(lf)
+		if n := strings.Count(string(b), tc.path+"?t="); n != tc.want {
+			rep.Violation("C20/log-lines/case-sensitive-paths", fmt.Sprintf("case-sensitive mode, `except /status`: GET %s produced %d log lines, want %d", tc.path, n, tc.want), map[string]string{"casketfile": cf, "request": tc.path})
+		}
+	}
+	rep.Class("case-sensitive-paths")
+}
+
 func main() {
 	rep := kit.NewReport("C20", "exploration",
 		"logging: 7 log layouts (one, two same-scope, two same-scope around another scope, disjoint scopes, except, except on the first of two, nested scopes) x every subset of size <=2 of 11 wrapping directives x 18 inner behaviours x 13 paths x GET/POST x Accept-Encoding, new lines of every log file counted after every request and {status}/{size} compared with what the strict writer saw; rotation: two sites sharing one rolling file under 4 spellings of its name, every line counted over the file and its backups, lines after a rotation looked for in the current file; placeholders: every format of 3 atoms over 20 atoms (vocabulary, header/cookie/query/env lookups, unknown, escaped braces, text) x 9x9 request-supplied values containing placeholder syntax, against a single-pass reference; distinct_nontrivial = outcome classes")
@@ -425,6 +453,7 @@ func main() {
 	logging(rep, root)
 	placeholders(rep)
 	rotation(rep, root)
+	caseSensitive(rep, root)
 	os.RemoveAll(root)
 	rep.Finish()
 }
